@@ -110,6 +110,10 @@ def per_file_rows(data):
 
 def main(tier):
     ck = lib.Check("C20", tier)
+    # every decision of this check compares two runs of the implementation (combined vs alone, MCP vs CLI, fresh process vs history, repetitions) or reads the race detector: none uses the regenerated model, so a translator
+    # problem does not demote them to unconfirmed disagreements (lib.Check.violation, independent=True)
+    _violation = ck.violation
+    ck.violation = lambda what, replay, no_input=False, independent=True: _violation(what, replay, no_input=no_input, independent=independent)
     ck.prepare("C20.v")
     rng = ck.rng
     thorough = tier == "thorough"
